@@ -1,5 +1,6 @@
 import Shisui.Store.Reach
 import Shisui.Store.Concurrent
+import Shisui.Store.ConcPrune
 /-! # C05 — Storage stays within capacity by pruning farthest-first
 
 Model: `St.Store`/`St.put`/`St.prune` (`storage/pebble/storage.go:195-306`), keys = big-endian value of
@@ -44,6 +45,31 @@ theorem concurrent_counter_underreports :
     let r := Conc.run [.add 0, .add 1, .commit 1, .commit 0] Conc.twoPuts
     r.persisted < Conc.held r.items := by decide
 
+/-! ## Schedules with a pruning put (`ConcP`: Add · commit item · Load · Store · commit deletes) -/
+
+/-- what a lock around the two sections would give: counter = persisted = held after every sequence of puts and pruning
+    passes (the justification of the repair recorded with the known finding) -/
+theorem atomic_sections_keep_counter (gs : List ConcP.G) (s : ConcP.Sh) (h : ConcP.Inv s) :
+    ConcP.Inv (gs.foldl ConcP.gstep s) := ConcP.atomic_sections_keep_counter gs s h
+
+/-- a thread's events run uninterrupted in today's order ARE the two sections -/
+theorem today_is_sections (s : ConcP.Sh) (th : ConcP.Th) (hf : th.freed ≤ s.held + th.len) (hi : ConcP.Inv s) :
+    ConcP.run s [th] (ConcP.today 0) = ConcP.gstep (ConcP.gstep s (.put th.len)) (.prune th.freed) :=
+  ConcP.today_is_sections s th hf hi
+
+/-- today's order: a put that arrives while another one waits in the fsync of its pruning batch loses nothing, whatever the
+    sizes (the forced schedule `concprune` of the run) -/
+theorem sync_window_safe_today (s : ConcP.Sh) (a b : ConcP.Th) (hi : ConcP.Inv s) :
+    ConcP.Inv (ConcP.run s [a, b] (ConcP.today 0 ++ [.add 1, .commitItem 1])) := ConcP.sync_window_safe_today s a b hi
+
+/-- NEGATIVE: with the counter's Store moved behind the commit the same window loses put B's bytes for good -/
+theorem store_after_commit_underreports :
+    let a : ConcP.Th := { len := 10032, freed := 50160 }
+    let b : ConcP.Th := { len := 10032, freed := 50160 }
+    let s : ConcP.Sh := { tracked := 993168, held := 993168, persisted := 993168 }
+    let r := ConcP.run s [a, b] [.add 0, .commitItem 0, .pLoad 0, .pCommit 0, .add 1, .commitItem 1, .pStore 0, .pLoad 1, .pStore 1, .pCommit 1]
+    r.persisted + 10032 = r.held ∧ r.tracked + 10032 = r.held := ConcP.store_after_commit_breaks_C05
+
 -- non-vacuity: a reachable state that has pruned once
 example : (run (init 1000) [(5, 400), (9, 400), (7, 100), (3, 50)]).items = [(3, 50), (5, 400), (7, 100)] := by decide
 example : Inv (run (init 1000) [(5, 400), (9, 400), (7, 100), (3, 50)]) :=
@@ -55,4 +81,8 @@ example : Inv (run (init 1000) [(5, 400), (9, 400), (7, 100), (3, 50)]) :=
 #print axioms farthest_first
 #print axioms exec_model_is_ideal
 #print axioms concurrent_counter_underreports
+#print axioms atomic_sections_keep_counter
+#print axioms today_is_sections
+#print axioms sync_window_safe_today
+#print axioms store_after_commit_underreports
 end Props.C05
